@@ -16,7 +16,7 @@
      net/url (Go 1.26)                    unescape, escape(encodePath), validEncoded, EscapedPath,
                                           setPath                            -> [unescape] ... [reparse]
 
-   A certificate URI is the part of a Go [*url.URL] that the code reads: Scheme, Host, Path,
+   A certificate URI is the part of a Go [url.URL] that the code reads: Scheme, Host, Path,
    RawPath, and one bit saying that nothing else is set (no userinfo, opaque part, query,
    fragment, omit-host flag).  The ACL authorizer is an arbitrary function.  X.509 encoding,
    signatures and chain validation are not modelled.  No proofs in this file. *)
@@ -173,13 +173,6 @@ Definition reparse (u : url) : url :=
   | Some (p, r) => Url (u_scheme u) (u_host u) p r (u_plain u)
   | None => u
   end.
-
-(* originalURI.String() == uri.String() in SignCertificate, for two URLs with the same scheme
-   and host, the first one freshly built by URI() (plain): the strings agree exactly when the
-   other one has no decorations and the escaped paths agree. *)
-Definition url_string_eqb (fresh u : url) : bool :=
-  u_plain u && (u_scheme u =? u_scheme fresh)%string && (u_host u =? u_host fresh)%string
-  && (escaped_path fresh =? escaped_path u)%string.
 
 (* ------------------------------------------------------------------ identities *)
 
@@ -350,15 +343,15 @@ Definition validate_supported (id : cert_id) : bool :=
   | IdSigning _ _ => false
   end.
 
-(* the switch in AuthorizeAndSignCertificate: the ACL question first, then the datacenter test
-   (there is none for agents) *)
+(* the switch in AuthorizeAndSignCertificate: the ACL question first, then the datacenter test *)
 Definition authorize_id (e : ca_env) (az : authz) (id : cert_id) : res serr unit :=
   match id with
   | IdService _ _ _ dc svc =>
       if negb (az_service_write az svc) then Err EDenied
       else if negb (dc =? e_dc e)%string then Err EDatacenter else Ok tt
-  | IdAgent _ _ _ agent =>
-      if negb (az_node_write az agent) then Err EDenied else Ok tt
+  | IdAgent _ _ dc agent =>
+      if negb (az_node_write az agent) then Err EDenied
+      else if negb (dc =? e_dc e)%string then Err EDatacenter else Ok tt
   | IdGateway _ _ dc =>
       if negb (az_mesh_write az) then Err EDenied
       else if negb (dc =? e_dc e)%string then Err EDatacenter else Ok tt
@@ -388,8 +381,16 @@ Definition authorize (e : ca_env) (az : authz) (c : csr) : res serr cert_id :=
 Definition can_sign (e : ca_env) (host : string) : bool := (lower host =? trust_domain e)%string.
 
 (* SignCertificate up to the call of provider.Sign: the list of URIs handed to the provider.
-   Agents: "here we are just automatically fixing the trust domain" - the URI is replaced only
-   when its String() equals the String() of the identity printed back with the old host. *)
+   Agents: "here we are just automatically fixing the trust domain" - every URI of the CSR that
+   parses as this agent identity (same host, datacenter and node; the community edition has one
+   partition), however it is spelled, is replaced by the identity printed with the trust domain
+   as host. *)
+Definition same_agent (host dc agent : string) (u : url) : bool :=
+  match parse_cert_uri u with
+  | Ok (IdAgent h2 _ dc2 agent2) => (h2 =? host)%string && (dc2 =? dc)%string && (agent2 =? agent)%string
+  | _ => false
+  end.
+
 Definition sign_uris (e : ca_env) (uris : list url) (id : cert_id) : res serr (list url) :=
   match id with
   | IdService host _ _ _ _ | IdGateway host _ _ | IdServer host _ =>
@@ -397,9 +398,8 @@ Definition sign_uris (e : ca_env) (uris : list url) (id : cert_id) : res serr (l
   | IdAgent host ap dc agent =>
       let td := trust_domain e in
       if negb (host =? td)%string then
-        let orig := uri_of (IdAgent host ap dc agent) in
         let fixed := uri_of (IdAgent td ap dc agent) in
-        Ok (map (fun u => if url_string_eqb orig u then fixed else u) uris)
+        Ok (map (fun u => if same_agent host dc agent u then fixed else u) uris)
       else Ok uris
   | IdSigning _ _ => Err EUnsupported
   end.
@@ -449,7 +449,7 @@ Inductive op :=
 | OpSnapshotRestore
 | OpInvalid.
 
-Inductive cerr := EOneActive | EMissingID | EConfigCAS | EInvalidOp.
+Inductive cerr := EOneActive | EActiveOverwritten | EMissingID | EConfigCAS | EInvalidOp.
 
 Inductive out := OBool (b : bool) | ONil | OSerial (n : N) | OErr (e : cerr).
 
@@ -475,8 +475,17 @@ Definition stamp (old : list root) (idx : N) (ri : root_in) : root :=
   Root (fst ri) (snd ri)
        (match find_root (fst ri) old with Some x => r_create x | None => idx end) idx.
 
+(* "the active CA root is replaced by a later entry with the same ID": rows are keyed by ID and a
+   later entry of the list overwrites an earlier one *)
+Fixpoint active_overwritten (rs : list root_in) : bool :=
+  match rs with
+  | [] => false
+  | ri :: t => (snd ri && existsb (fun rj => (fst rj =? fst ri)%string) t) || active_overwritten t
+  end.
+
 Definition root_check_and_set (s : store) (idx cidx : N) (rs : list root_in) : cas_res :=
   if negb (Nat.eqb (count_active rs) 1) then CasErr EOneActive
+  else if active_overwritten rs then CasErr EActiveOverwritten
   else if negb (s_roots_idx s =? cidx) then CasNo
   else if existsb (fun ri => (fst ri =? "")%string) rs then CasErr EMissingID
   else CasYes (fold_left (fun acc ri => insert_root (stamp (s_roots s) idx ri) acc) rs []).
